@@ -66,6 +66,18 @@ class Multiplication:
       return self
     else:
       s, sn = self._segment_and_segment_name(segment)
+      if copy_names is not None:
+        # (checked before anything is changed)
+        copy_names = list(copy_names)
+        if len(copy_names) != factor - 1:
+          raise gfapy.ArgumentError(
+              "The number of copy names must be factor - 1 "+
+              "({} names found, factor is {})".format(len(copy_names), factor))
+        for i, cn in enumerate(copy_names):
+          if cn in copy_names[:i] or cn in self.names or \
+              self.line(cn) is not None:
+            raise gfapy.NotUniqueError(
+                "The copy name {} is not unique".format(cn))
       if track_origin and not s.get(origin_tag):
         s.set(origin_tag, sn)
       self.__divide_segment_and_connection_counts(s, factor)
